@@ -124,22 +124,34 @@ def ltBh (s : String) : Bool :=
   | some (a, _, _) => 1 ≤ a && a ≤ 9
   | none => false
 
+def ltCfg (s : String) : Bool :=
+  match ltTriple s with
+  | some (_, b, _) => b ≤ 3
+  | none => false
+
 def looptraceWellFormed (toks : List String) : Bool :=
   match toks with
-  | [t0, t1, t2, t3, t4, t5, t6, t7, t8, t9] =>
+  | [t0, t1, t2, t3, t4, t5, t6, t7, t8, t9, t10, t11] =>
     match ltVal t0 "ips", ltVal t1 "reloads", ltVal t2 "admit2", ltVal t3 "pps", ltVal t4 "rtt",
-          ltVal t5 "nak", ltVal t6 "bh", ltVal t7 "sack", ltVal t8 "forget", ltVal t9 "ticks" with
-    | some ips, some rl, some ad, some pps, some rtt, some nak, some bh, some sack, some forget, some ticks =>
+          ltVal t5 "nak", ltVal t6 "bh", ltVal t7 "sack", ltVal t8 "forget", ltVal t9 "cfg", ltVal t10 "quiet",
+          ltVal t11 "ticks" with
+    | some ips, some rl, some ad, some pps, some rtt, some nak, some bh, some sack, some forget, some cfg, some quiet,
+      some ticks =>
       let rls := if rl == "-" then [] else rl.splitOn ","
       let bhs := if bh == "-" then [] else bh.splitOn ","
+      let cfgs := if cfg == "-" then [] else cfg.splitOn ","
       ltList ips && rls.all ltReload && rls.length ≤ 4 && (ltNum ad).isSome &&
       (match ltNum pps with | some p => 1 ≤ p && p ≤ 2000 | none => false) &&
       (match ltNum rtt with | some r => r ≤ 2000 | none => false) &&
       (ltTriple nak).isSome &&
       bhs.all ltBh && bhs.length ≤ 4 &&
       (ltNum sack).isSome && (ltNum forget).isSome &&
+      cfgs.all ltCfg && cfgs.length ≤ 6 &&
+      (match quiet.splitOn ":" with
+       | [a, b] => (ltNum a).isSome && (ltNum b).isSome
+       | _ => false) &&
       (match ltNum ticks with | some t => 1 ≤ t && t ≤ 200 | none => false)
-    | _, _, _, _, _, _, _, _, _, _ => false
+    | _, _, _, _, _, _, _, _, _, _, _, _ => false
   | _ => false
 
 end Srtla.Drv
